@@ -42,15 +42,23 @@ type oRS struct {
 	zeof  bool
 	reads int
 	zero  int // number of zero-length reads
+	zrun  int // consecutive zero-length reads
 }
 
 func (r *oRS) Read(p []byte) (int, error) {
 	r.reads++
 	if len(p) == 0 {
 		r.zero++
+		r.zrun++
+		if r.zrun > 4096 {
+			// a caller that keeps issuing empty reads makes no progress: end the call (recorded as a panic outcome)
+			panic("livelock: more than 4096 consecutive empty reads")
+		}
 		if !r.zeof {
 			return 0, nil
 		}
+	} else {
+		r.zrun = 0
 	}
 	if r.pos >= int64(len(r.data)) {
 		return 0, io.EOF
